@@ -63,6 +63,9 @@ func runC20(r *run) {
 		for i := 0; i < 24; i++ {
 			emit(caseT{"priority", []string{fmt.Sprint(i)}})
 		}
+		for i := 0; i < 8; i++ {
+			emit(caseT{"isolation", []string{fmt.Sprint(i)}})
+		}
 		// concurrency: k goroutines ask for the same uncached names at once
 		nc := 60
 		if r.tier == "thorough" {
@@ -229,7 +232,73 @@ func execPriority(r *run, c caseT) {
 	}
 }
 
+// execIsolation: globals, bans, options, debug flag and cache of one set (the package's default set
+// included) are invisible to every other set
+func execIsolation(r *run, c caseT) {
+	var i int
+	fmt.Sscanf(c.args[0], "%d", &i)
+	files := map[string]string{"p.tpl": "[{{ site }}|{{ shared }}|{{ \"x\"|upper }}]{% if 1 %}\n{% endif %}"}
+	other := pongo2.DefaultSet
+	if i%2 == 1 {
+		other = pongo2.NewSet("other", newMemLoader(files))
+	}
+	mine := pongo2.NewSet("mine", newMemLoader(files))
+	mine.Globals["site"] = "web"
+	before, e0 := mine.RenderTemplateFile("p.tpl", nil)
+	// things done to the other set
+	if other.Globals == nil {
+		other.Globals = pongo2.Context{}
+	}
+	other.Globals["shared"] = "LEAK"
+	other.Globals["site"] = "OTHER"
+	if i%2 == 0 {
+		pongo2.Globals["shared"] = "LEAK" // the package-level alias of the default set's globals
+	}
+	other.Debug = true
+	other.Options.TrimBlocks = true
+	if i%2 == 1 {
+		_ = other.BanFilter("upper")
+	}
+	var after string
+	var e1 error
+	switch (i / 2) % 4 {
+	case 0:
+		after, e1 = mine.RenderTemplateFile("p.tpl", nil)
+	case 1:
+		after, e1 = mine.RenderTemplateString(files["p.tpl"], nil)
+	case 2:
+		t, err := mine.FromCache("p.tpl")
+		e1 = err
+		if err == nil {
+			after, e1 = t.Execute(nil)
+		}
+	default:
+		t, err := mine.FromString("{% include \"p.tpl\" %}")
+		e1 = err
+		if err == nil {
+			after, e1 = t.Execute(nil)
+		}
+	}
+	// undo what was done to the shared default set
+	delete(other.Globals, "shared")
+	delete(other.Globals, "site")
+	delete(pongo2.Globals, "shared")
+	other.Debug = false
+	other.Options.TrimBlocks = false
+	obs := fmt.Sprint(before, e0 != nil, after, e1 != nil)
+	id := r.emit(c.op, c.args, "isolation:"+hx(obs))
+	r.nontrivial("isolation" + c.args[0])
+	want := "[web||X]\n"
+	if before != want || after != want || e0 != nil || e1 != nil {
+		r.reject(id, "what was done to another template set shows in this one", map[string]any{"other_is_default_set": i%2 == 0, "before": before, "after": after, "expected": want})
+	}
+}
+
 func execC20(r *run, c caseT) {
+	if c.op == "isolation" {
+		execIsolation(r, c)
+		return
+	}
 	if c.op == "realfs" {
 		execRealFS(r, c)
 		return
